@@ -21,7 +21,9 @@ import vlib
 
 LEVEL = "exploration"
 
-SIGMA = [("a", "a", "a"), ("dq", '\\"', '"'), ("sq", "'", "'"), ("bs", "\\\\", "\\"), ("lb", "{", "{"), ("rb", "}", "}"), ("e2", "é", "é"), ("nl", "\\n", "\n")]
+SIGMA = [("a", "a", "a"), ("dq", '\\"', '"'), ("sq", "'", "'"), ("bs", "\\\\", "\\"), ("lb", "{", "{"), ("rb", "}", "}"), ("e2", "é", "é"), ("nl", "\\n", "\n"),
+         # characters a generic "debug" quoting would write as \u{..} (not Python), and NUL (\0 before a digit reads as octal)
+         ("del", "\x7f", "\x7f"), ("zw", "\u200b", "\u200b"), ("cm", "\u0301", "\u0301"), ("nul", "\\0", "\0"), ("d1", "1", "1")]
 ADDR = re.compile(r"0x[0-9a-fA-F]{6,}")
 NYI = ("not yet implemented", "not implemented")
 
